@@ -633,10 +633,23 @@ impl Exch {
             return Ok(());
         }
         if m.status == 100 && idx + 1 < self.cfg.server.len() {
+            let awaited = self.cfg.req.expects_100() && self.cfg.req.body_due() && !self.got_100;
+            if !awaited {
+                // a stray 100 (nobody is waiting for one): handed out as an interim response or skipped -
+                // either way consumed exactly, the flow not ready, and the real response is still to come
+                let handed = resp.as_ref().map(|r| r.status().as_u16());
+                if n != hlen || ready || !(handed.is_none() || handed == Some(100)) {
+                    return Err((self.k("try-response", "stray-100-mishandled"), format!("stray 100 response: returned ({}, {:?}), ready {}", n, handed, ready)));
+                }
+                self.consumed += n;
+                self.msg_idx += 1;
+                return Ok(());
+            }
             // late interim response: skipped exactly once
             if n != hlen || resp.is_some() || ready {
                 return Err((self.k("try-response", "late-100-not-skipped"), format!("late 100 response: returned ({}, {}), ready {}", n, if resp.is_some() { "Some" } else { "None" }, ready)));
             }
+            self.got_100 = true;
             self.consumed += n;
             self.msg_idx += 1;
             return Ok(());
@@ -802,7 +815,9 @@ impl Exch {
             AnyFlow::SendBody(f) => {
                 let ch = f.is_chunked();
                 if ch != self.cfg.req_chunked {
-                    return Err((format!("{}:send-body:wrong-framing", self.cfg.prop), format!("is_chunked() = {} but the request head announces {}", ch, if self.cfg.req_chunked { "chunked" } else { "content-length" })));
+                    // deferred where another property owns it: what the flow does in this state is still explored
+                    let (k, w) = (format!("{}:send-body:wrong-framing", self.cfg.prop), format!("is_chunked() = {} but the request head announces {}", ch, if self.cfg.req_chunked { "chunked" } else { "content-length" }));
+                    self.soft(k, w)?;
                 }
             }
             AnyFlow::RecvResponse(_) => {
